@@ -54,6 +54,7 @@ Calls == {<<"connect", u, v, 1>> : u \in Nodes, v \in Nodes}
    \cup {<<"disconnect", u, k>> : u \in Nodes, k \in Nodes}
    \cup {<<"isolate", u>> : u \in Nodes}
    \cup {<<"scan", u>> : u \in Nodes}
+   \cup {<<"degree", u>> : u \in Nodes}      \* the degree / root / leaf / orphan queries of a node
 
 LInit == /\ out = Empty /\ inn = Empty /\ phase = "init"
          /\ prog = [t \in Threads |-> <<>>] /\ ci = [t \in Threads |-> 1]
@@ -205,6 +206,12 @@ StepScan(t, c) ==
   ELSE /\ UNCHANGED <<out, inn, poisoned>>
        /\ IF p <= Len(lst) THEN Goto(t, "scan", [reg[t] EXCEPT !.pos = p]) ELSE Finish(t, "scanned")
 
+\* read-only queries: one read-locked look at the node (the number of separate
+\* read sections does not change any outcome)
+StepDegree(t, c) ==
+  IF c[2] \in poisoned THEN Panic(t, 0) /\ UNCHANGED <<out, inn>>
+  ELSE UNCHANGED <<out, inn, poisoned>> /\ Finish(t, "degree")
+
 Step(t) ==
   /\ phase = "run" /\ status[t] = "run"
   /\ LET c == Cur(t) IN
@@ -213,6 +220,7 @@ Step(t) ==
        [] c[1] = "disconnect"  -> StepDisconnect(t, c)
        [] c[1] = "isolate"     -> StepIsolate(t, c)
        [] c[1] = "scan"        -> StepScan(t, c)
+       [] c[1] = "degree"      -> StepDegree(t, c)
   /\ UNCHANGED <<prog, phase, g0>>
 
 AllStopped == phase = "run" /\ \A t \in Threads : status[t] # "run"
